@@ -91,6 +91,6 @@ func TestC43(t *testing.T) {
 }
 
 func TestC49(t *testing.T) {
-	runXfer(t, "C49", "exploration", 16, 24, 90, Triangle, func(p *Profile) { p.HostileSend, p.Grant, p.Exec = 14, 5, 14 },
-		map[string]int64{"hostile_sends": 100, "authorization_checks": 200, "ledger_accounts_compared": 5000, "exec-without-grant_rejected": 30, "debits_authorised_by_grant": 5})
+	runXfer(t, "C49", "exploration", 16, 24, 90, Triangle, func(p *Profile) { p.HostileSend, p.Grant, p.Exec = 14, 8, 16 },
+		map[string]int64{"hostile_sends": 60, "authorization_checks": 120, "ledger_accounts_compared": 5000, "exec-without-grant_rejected": 15, "debits_authorised_by_grant": 3})
 }
